@@ -178,8 +178,27 @@ Theorem C19_pager_complete : forall w cs, concat (layout w cs) = filter not_nl c
 Proof. exact layout_complete. Qed.
 Print Assumptions C19_pager_complete.
 
+(* "presents every line of its text": for every width (also 0 or negative) and every text the rows
+   split into consecutive non-empty groups, one group per logical line of the text in order
+   ([logical_lines]: the runs between newline characters - "\n" or a "\r\n" cluster -, the run after
+   the last newline only when it is not empty), the rows of a group concatenated are the line - so
+   an empty line has an empty row of its own, also right after a row that was flushed exactly at
+   the width -, and only empty rows follow the last group.  [presents] is the decision procedure
+   the differential run evaluates on the implementation's rows (part of [lines_ok]); it is sound
+   for the declarative [presented].  (Completeness of [presents] for [presented] is not proved; it
+   is not needed: the model itself satisfies [presents].) *)
+Theorem C19_pager_presents_every_line : forall w cs,
+  presents cs (layout w cs) = true /\ presented cs (layout w cs).
+Proof. intros w cs. split; [apply layout_presents|apply layout_presented]. Qed.
+Print Assumptions C19_pager_presents_every_line.
+
+Theorem C19_pager_presents_sound : forall rows cs, presents cs rows = true -> presented cs rows.
+Proof. exact presents_sound. Qed.
+Print Assumptions C19_pager_presents_sound.
+
 (* ... no line contains a newline, and a line is broken as soon as it reaches the width: everything
-   but its last character is narrower than the width (character widths >= 0). *)
+   but its last character is narrower than the width (character widths >= 0).  [lines_ok] now also
+   contains [presents cs lines]. *)
 Theorem C19_pager_lines_ok : forall w cs, wf_chars cs -> lines_ok w cs (layout w cs) = true.
 Proof. exact layout_lines_ok. Qed.
 Print Assumptions C19_pager_lines_ok.
@@ -256,6 +275,21 @@ Example C19_pager_example :
   layout 4 [([97], 1); ([98], 1); ([10], 0); ([99], 1); ([100], 1)] =
   [[([97], 1); ([98], 1)]; [([99], 1); ([100], 1)]].
 Proof. split; [repeat constructor; simpl; lia|reflexivity]. Qed.
+
+(* blank lines after a row that ends exactly at the width: "abc\n\nxyz" at width 3 has the logical
+   lines abc, "", xyz; Layout gives abc, "", "", xyz (one empty row more than needed, accepted);
+   without the row of the empty line (abc, xyz) the predicate fails, and so it does when the
+   newline that follows the full row gets no row and the text ends there ("abc\n\n" as abc only) *)
+Example C19_pager_blank_after_full_row_example :
+  let a := ([97], 1) in let b := ([98], 1) in let c := ([99], 1) in let nl := ([10], 0) in
+  let x := ([120], 1) in
+  logical_lines [a; b; c; nl; nl; x; x; x] = [[a; b; c]; []; [x; x; x]] /\
+  layout 3 [a; b; c; nl; nl; x; x; x] = [[a; b; c]; []; []; [x; x; x]] /\
+  presents [a; b; c; nl; nl; x; x; x] [[a; b; c]; [x; x; x]] = false /\
+  presents [a; b; c; nl; nl] [[a; b; c]] = false /\
+  presents [a; b; c; nl; nl] [[a; b; c]; []] = true /\
+  logical_lines [a; b; ([13; 10], 0); c] = [[a; b]; [c]].
+Proof. cbv zeta. repeat split; reflexivity. Qed.
 
 Example C19_sbar_example : sb_rows 40 10 15 1 8 = [3; 4].
 Proof. reflexivity. Qed.
